@@ -6,6 +6,7 @@ CONSTANTS
   MaxGets = 2
   InjLen = 2
   Wide = {}
+  ChainSeq <- NoChain
   Emit = TRUE
 INVARIANTS InjectConsistent StackEmptyWhenQuiet Precedence NoRecursion OnceBuilt LazyFactories
 VIEW View
